@@ -168,7 +168,7 @@ func c05Bounded(eng *Engine, tier string, seed int64) *BoundedResult {
 		maxLabels = 5
 	}
 	src := fmt.Sprintf(c05TestSrc, maxLabels)
-	out := runReplayTest(repoDir(), filepath.Join(repoDir(), "netutil"), src)
+	out := runHarness(repoDir(), filepath.Join(repoDir(), "netutil"), src)
 	res := &BoundedResult{
 		What:  "PrefixFromReversedAddr and ExtractReversedAddr compared, on the real code, with a decoder written independently from the property statement (succeeds iff ... labels followed by in-addr.arpa / ip6.arpa; the longest label-aligned suffix for Extract)",
 		Bound: fmt.Sprintf("every sequence of at most %d labels over {0,1,10,255,256,00,01,a,F,g,x-y,_s} in front of in-addr.arpa, ip6.arpa and four non-ARPA tails, each as is, with a trailing dot and in upper case; IPv6 names of 30..34 nibble labels", maxLabels),
